@@ -12,8 +12,11 @@ blocks, in successive loop iterations; defers; blocks, if/else, loops with break
 function incl. recursion with a depth parameter; returns) printed as Cb programs with tracing
 constructors/destructors/defers and run on the real `main` (hook CB_VERIF_STACKS) vs the extracted Mech
 model: stdout transcript, every call-imbalance line and the final stack depths must agree for EVERY
-program (nothing is avoided: the Mech reproduces the known name-collision defects of the code); on the
+program (nothing is avoided: the Mech reproduces the known name-collision defect of the code); on the
 programs of the proved class Mech = Spec, so each of them is also a direct test of the property.
+Two defects found by this check were repaired in /repo (fix: a registration resets destructor_called; fix: scopes
+left while a destructor runs clean up) - the model follows the repaired code, W objects are inside the proved
+class, destructor bodies that own objects/defers/blocks are fixed text programs with the demanded transcript.
 """
 import itertools
 import json
@@ -44,7 +47,7 @@ META = {
             "a recursion, in sibling blocks and successive iterations): the machine emits exactly the structural cleanup order of the "
             "property (defers LIFO then destructors LIFO at every scope exit by any path, inner scopes first, each object destroyed "
             "exactly once by the destructor of its own type, a call's cleanup a function of the callee alone). Outside that class the "
-            "current code loses objects (refuted theorems = known findings). The model is tied to the code on every run: exhaustive "
+            "current code loses objects (refuted theorem = known finding). The model is tied to the code on every run: exhaustive "
             "small skeletons under three naming disciplines, an exhaustive family of recursive callees sharing one variable name with "
             "their caller, and random deeper ones with names from a pool of 1-3 are printed as Cb programs and executed on the real "
             "binary; transcript, CB_VERIF_STACKS imbalance lines and final depths must equal the extracted model for every program.",
@@ -52,8 +55,9 @@ META = {
             "ExtrOcamlBasic+ExtrOcamlString; the model is hand-written and tied by differential testing only; the Python printer of "
             "skeletons to Cb text; return operands are constants (the documented order `defers, destructors, then evaluation of the "
             "return operand` is checked by one fixed program); if/loop bodies are always braced (unbraced bodies, objects/defers inside "
-            "constructor and defer bodies: fixed text programs only); struct parameters, copies, yield/async not modelled; the W "
-            "member-flag rule of the model (obj_slots) is inferred from the binary's behaviour. "
+            "constructor, destructor and defer bodies: fixed text programs only); struct parameters, copies, yield/async not modelled; "
+            "the model folds register_destructor_call's reset of destructor_called into the binding of the slots (obj_slots: both "
+            "variables of a W declaration are in the current scope when they are registered - observed, not proved). "
             "coq/C06/Pinned.v keeps the machine of the code before the fix commits (findings #11, #43, #44) for the record.",
 }
 PRELUDE = """struct R { int id; };
@@ -632,7 +636,8 @@ void main() { f1(); println("mark", 10); }
 DOC6_EXPECT = ["ctor 1", "reg 2", "defer 2", "dtor 1", "mark 9", "mark 10"]
 
 # constructs outside the skeleton language, one text program each with the transcript the property demands
-# (all of them hold on the current code): cleanup code paths the skeletons cannot reach
+# (all of them hold on the current code): cleanup code paths the skeletons cannot reach; the destructor-* programs are the
+# regression inputs of the repaired finding C06-destructor-context-no-cleanup (scopes left while a destructor runs)
 EXTRA = [
     ("unbraced-if-body-object", """void main() { if (1 == 1) R a(1); println("mark", 1); }
 """, ["ctor 1", "mark 1", "dtor 1"]),
@@ -672,6 +677,40 @@ void main() { f(0); f(1); f(2); }
 void main() { W a(7); f(1); println("mark", 9); }
 """, ["ctor 57", "wctor 7", "ctor 151", "wctor 101", "ctor 51", "wctor 1", "mark 0", "wdtor 1", "dtor 51", "mark 1", "wdtor 101",
       "dtor 151", "mark 9", "wdtor 7", "dtor 57"]),
+    ("destructor-body-owns-object-block-defer-and-calls", """struct V { int id; };
+void helper(int k) { R h(70 + k); println("mark", k); }
+impl V { self(int k) { self.id = k; println("vctor", k); }
+         ~self() { println("vdtor", self.id); R g(60); { defer println("defer", 6); println("mark", 3); } println("mark", 4); helper(self.id); } }
+void main() { V v(1); println("mark", 9); }
+""", ["vctor 1", "mark 9", "vdtor 1", "ctor 60", "mark 3", "defer 6", "mark 4", "ctor 71", "mark 1", "dtor 71", "dtor 60"]),
+    ("destructor-local-named-like-the-destroyed-object", """struct V { int id; };
+impl V { self(int k) { self.id = k; println("vctor", k); }
+         ~self() { println("vdtor", self.id); R a(60 + self.id); println("mark", 3); } }
+void main() { V a(1); { V a2(2); } println("mark", 9); }
+""", ["vctor 1", "vctor 2", "vdtor 2", "ctor 62", "mark 3", "dtor 62", "mark 9", "vdtor 1", "ctor 61", "mark 3", "dtor 61"]),
+    ("destructors-nested-with-member-objects-loops-and-blocks", """struct V { int id; };
+struct U { int id; };
+impl U { self(int k) { self.id = k; println("uctor", k); }
+         ~self() { println("udtor", self.id); R x(80); for (int i = 0; i < 2; i++) { R y(81 + i); if (i == 0) { continue; } println("mark", 5); } } }
+impl V { self(int k) { self.id = k; println("vctor", k); }
+         ~self() { println("vdtor", self.id); U u(70); W w(20); if (self.id == 1) { defer println("defer", 7); println("mark", 6); } println("mark", 4); } }
+void main() { V a(1); V b(2); println("mark", 9); }
+""", ["vctor 1", "vctor 2", "mark 9",
+      "vdtor 2", "uctor 70", "ctor 70", "wctor 20", "mark 4", "wdtor 20", "dtor 70", "udtor 70", "ctor 80", "ctor 81", "dtor 81", "ctor 82", "mark 5",
+      "dtor 82", "dtor 80",
+      "vdtor 1", "uctor 70", "ctor 70", "wctor 20", "mark 6", "defer 7", "mark 4", "wdtor 20", "dtor 70", "udtor 70", "ctor 80", "ctor 81", "dtor 81",
+      "ctor 82", "mark 5", "dtor 82", "dtor 80"]),
+    ("destructor-calls-recursive-function-with-objects-and-defers", """struct V { int id; };
+void close(int n) { R t(90 + n); defer println("defer", n); if (n > 0) { close(n - 1); } println("mark", n); }
+impl V { self(int k) { self.id = k; println("vctor", k); }
+         ~self() { println("vdtor", self.id); close(1); println("mark", 8); } }
+void main() { V v(3); println("mark", 9); }
+""", ["vctor 3", "mark 9", "vdtor 3", "ctor 91", "ctor 90", "mark 0", "defer 0", "dtor 90", "mark 1", "defer 1", "dtor 91", "mark 8"]),
+    ("destructor-with-local-object-run-from-loop-break", """struct V { int id; };
+impl V { self(int k) { self.id = k; println("vctor", k); }
+         ~self() { R g(60 + self.id); println("vdtor", self.id); } }
+void main() { for (int i = 0; i < 3; i++) { V v(0 + i); if (i == 1) { break; } } println("mark", 9); }
+""", ["vctor 0", "ctor 60", "vdtor 0", "dtor 60", "vctor 1", "ctor 61", "vdtor 1", "dtor 61", "mark 9"]),
 ]
 
 
@@ -725,6 +764,26 @@ def names_live_across_frames(p):
                 if ti != tj or len(ti) > 1:
                     diff_type = True
     return same_type, diff_type, rec
+
+
+def w_declared_again(p):
+    """Static label for the input histogram (the input class of the repaired finding C06-redeclared-member-flag-stale): some
+    function body declares a W object inside a loop, or declares two W objects under one variable name."""
+    def walk(b, in_loop, seen):
+        hit = False
+        for s in b:
+            if s[0] == "o" and s[2] == "W":
+                hit = hit or in_loop or s[1] in seen
+                seen.add(s[1])
+            elif s[0] == "B":
+                hit = walk(s[1], in_loop, seen) or hit
+            elif s[0] == "I":
+                hit = walk(s[2], in_loop, seen) or hit
+                hit = walk(s[3], in_loop, seen) or hit
+            elif s[0] == "L":
+                hit = walk(s[2], in_loop or s[1] > 1, seen) or hit
+        return hit
+    return any(walk(b, False, set()) for b in p[1])
 
 
 def run(rep):
@@ -782,7 +841,7 @@ def run(rep):
     nontrivial = 0
     n_old_defect = 0
     n_wf = n_nonconf = 0
-    n_same = n_diff = n_rec_names = 0
+    n_same = n_diff = n_rec_names = n_w_again = 0
     bad, inconsistent = [], []
     for (p, sty), o, m, i in zip(cases, origin, models, impls):
         hist[o] = hist.get(o, 0) + 1
@@ -800,6 +859,7 @@ def run(rep):
             n_old_defect += 1
         a, b, c = names_live_across_frames(p)
         n_same += a; n_diff += b; n_rec_names += c
+        n_w_again += w_declared_again(p)
         if m["wf"]:
             n_wf += 1
             if not conforming(m):      # contradicts theorem cleanup_mech_refines_spec_partial: extraction/driver trouble
@@ -826,6 +886,7 @@ def run(rep):
         "programs_with_one_name_in_two_functions_same_struct_type": n_same,
         "programs_with_one_name_in_two_functions_other_struct_type": n_diff,
         "programs_with_named_objects_in_a_recursive_function": n_rec_names,
+        "programs_declaring_a_W_object_again_in_one_function_body": n_w_again,
         "programs_by_formerly_defective_shape": shape_hist,
         "programs_on_which_the_code_before_the_fixes_misbehaved": n_old_defect,
         "avoided_known_findings": 0,
@@ -934,7 +995,7 @@ def run(rep):
         "no struct parameters/copies, no yield",
         "skeletons are printed to Cb text by the Python printer (for/while, void/int, call statement/initialiser, R through a typedef alias chosen per case)",
         "Spec-level claims for generated programs rest on theorem cleanup_mech_refines_spec_partial only inside wf_prog; outside it the "
-        "model reproduces the recorded name-collision findings and only model = implementation is checked",
+        "model reproduces the recorded name-collision finding and only model = implementation is checked",
     ]
 
 
